@@ -33,6 +33,25 @@ def GoOpOk (c : Cfg) (hist look : ByteArray) (s : St) : GoOp → Prop
 def MatcherOk (c : Cfg) (M : Matcher σ) : Prop :=
   ∀ (m : σ) (hist look : ByteArray) (s : St), 1 ≤ look.size → GoOpOk c hist look s (M.next m hist look s).1
 
+/-- a match finder that is applicable as long as its state is in sync with the dictionary: `I m hist look` is the
+    sync invariant; it is preserved when the look-ahead grows, when a proposal is consumed (`len` bytes move from
+    the look-ahead to the history) and when a proposal is requested but dropped (the encoder hit its margin).
+    Every clause may assume the space bound of the encoder dictionary for the state it starts from (`grow`: for
+    the grown state). -/
+structure MatcherInv (c : Cfg) (M : Matcher σ) (I : σ → ByteArray → ByteArray → Prop) : Prop where
+  ok : ∀ (m : σ) (hist look : ByteArray) (s : St), I m hist look → 1 ≤ look.size →
+        look.size + min hist.size c.dictCap ≤ c.dictCap + c.bufSize →
+        GoOpOk c hist look s (M.next m hist look s).1
+  consume : ∀ (m : σ) (hist look : ByteArray) (s : St), I m hist look → 1 ≤ look.size →
+        look.size + min hist.size c.dictCap ≤ c.dictCap + c.bufSize →
+        I (M.next m hist look s).2 (hist ++ look.extract 0 (M.next m hist look s).1.len)
+          (look.extract (M.next m hist look s).1.len look.size)
+  drop : ∀ (m : σ) (hist look : ByteArray) (s : St), I m hist look → 1 ≤ look.size →
+        look.size + min hist.size c.dictCap ≤ c.dictCap + c.bufSize →
+        I (M.next m hist look s).2 hist look
+  grow : ∀ (m : σ) (hist look x : ByteArray), I m hist look →
+        (look ++ x).size + min hist.size c.dictCap ≤ c.dictCap + c.bufSize → I m hist (look ++ x)
+
 /-- data accepted by a call history (every `Write` is assumed to have been accepted completely) -/
 def payload : List Call → ByteArray
   | [] => ByteArray.empty
@@ -56,6 +75,15 @@ theorem matcherOk' {c : Cfg} {M : Matcher σ} (h : MatcherOk c M) : MatcherOk' c
   intro m hist look s h1
   rw [← goOpOk_eq]
   exact h m hist look s h1
+
+theorem matcherInv' {c : Cfg} {M : Matcher σ} {I : σ → ByteArray → ByteArray → Prop} (h : MatcherInv c M I) :
+    MatcherInv' c M I :=
+  ⟨fun m hist look s hi h1 hs => by rw [← goOpOk_eq]; exact h.ok m hist look s hi h1 hs, h.consume, h.drop, h.grow⟩
+
+/-- a match finder whose proposals are applicable in every state needs no sync invariant -/
+theorem matcherInv_of_ok {c : Cfg} {M : Matcher σ} (h : MatcherOk c M) : MatcherInv c M (fun _ _ _ => True) :=
+  ⟨fun m hist look s _ h1 _ => h m hist look s h1, fun _ _ _ _ _ _ _ => trivial, fun _ _ _ _ _ _ _ => trivial,
+   fun _ _ _ _ _ _ => trivial⟩
 
 theorem allOk_nil : allOk ([] : List (CallRes × Nat)) := by
   intro r hr; cases hr
@@ -110,15 +138,15 @@ theorem payload_append_flush (calls : List Call) : payload (calls ++ [.flush]) =
   | cons call calls ih =>
     cases call <;> simp only [List.cons_append, payload, ih]
 
-theorem run_spec (c : Cfg) (hc : CfgOk c) (M : Matcher σ) (hM : MatcherOk c M) :
-    ∀ (calls : List Call) (w : WSt σ) (d : ByteArray), RunInv c w d →
+theorem run_spec (c : Cfg) (hc : CfgOk c) (M : Matcher σ) (I : σ → ByteArray → ByteArray → Prop) (hI : MatcherInv c M I) :
+    ∀ (calls : List Call) (w : WSt σ) (d : ByteArray), RunInv c I w d →
       (∀ call ∈ calls, ¬ (call matches .close)) → allOk (run c M w calls).2 →
-      RunInv c (run c M w calls).1 (d ++ payload calls) := by
+      RunInv c I (run c M w calls).1 (d ++ payload calls) := by
   intro calls
   induction calls with
   | nil =>
     intro w d h _ _
-    show RunInv c w (d ++ ByteArray.empty)
+    show RunInv c I w (d ++ ByteArray.empty)
     rw [ByteArray.append_empty]; exact h
   | cons call rest ih =>
     intro w d h hnc hok
@@ -128,20 +156,20 @@ theorem run_spec (c : Cfg) (hc : CfgOk c) (M : Matcher σ) (hM : MatcherOk c M) 
     have hnc' : ∀ call ∈ rest, ¬ (call matches .close) := fun x hx => hnc x (List.mem_cons_of_mem _ hx)
     cases call with
     | write p =>
-      have h1 := (step_write c (cfgOk' hc) M (matcherOk' hM) w d p h).2 herr
+      have h1 := (step_write c (cfgOk' hc) M I (matcherInv' hI) w d p h).2 herr
       have := ih _ _ h1 hnc' hrest
-      show RunInv c _ (d ++ (p ++ payload rest))
+      show RunInv c I _ (d ++ (p ++ payload rest))
       rw [← ByteArray.append_assoc]
       exact this
     | flush =>
-      have h1 := ((step_flush c (cfgOk' hc) M (matcherOk' hM) w d h).2 herr).1
+      have h1 := ((step_flush c (cfgOk' hc) M I (matcherInv' hI) w d h).2 herr).1
       exact ih _ _ h1 hnc' hrest
     | close =>
       exact absurd rfl (hnc .close (List.mem_cons_self))
 
 theorem run_margin (hmargin : 25 ≤ Gen.lzma_opLenMargin) (c : Cfg) (hc : CfgOk c) (M : Matcher σ)
-    (hM : MatcherOk c M) :
-    ∀ (calls : List Call) (w : WSt σ) (d : ByteArray), RunInv c w d →
+    (I : σ → ByteArray → ByteArray → Prop) (hI : MatcherInv c M I) :
+    ∀ (calls : List Call) (w : WSt σ) (d : ByteArray), RunInv c I w d →
       (∀ call ∈ calls, ¬ (call matches .close)) → allOk (run c M w calls).2 := by
   intro calls
   induction calls with
@@ -152,28 +180,29 @@ theorem run_margin (hmargin : 25 ≤ Gen.lzma_opLenMargin) (c : Cfg) (hc : CfgOk
     have hnc' : ∀ call ∈ rest, ¬ (call matches .close) := fun x hx => hnc x (List.mem_cons_of_mem _ hx)
     cases call with
     | write p =>
-      have hs := step_write c (cfgOk' hc) M (matcherOk' hM) w d p h
+      have hs := step_write c (cfgOk' hc) M I (matcherInv' hI) w d p h
       have herr := hs.1.2 hmargin
       exact ⟨herr, ih _ _ (hs.2 herr) hnc'⟩
     | flush =>
-      have hs := step_flush c (cfgOk' hc) M (matcherOk' hM) w d h
+      have hs := step_flush c (cfgOk' hc) M I (matcherInv' hI) w d h
       have herr := hs.1.2 hmargin
       exact ⟨herr, ih _ _ (hs.2 herr).1 hnc'⟩
     | close =>
       exact absurd rfl (hnc .close (List.mem_cons_self))
 
-theorem step_errOk (c : Cfg) (hc : CfgOk c) (M : Matcher σ) (hM : MatcherOk c M) (w : WSt σ) (d : ByteArray)
-    (h : RunInv c w d) (call : Call) : ErrOk (step c M w call).2.err := by
+theorem step_errOk (c : Cfg) (hc : CfgOk c) (M : Matcher σ) (I : σ → ByteArray → ByteArray → Prop) (hI : MatcherInv c M I) (w : WSt σ) (d : ByteArray)
+    (h : RunInv c I w d) (call : Call) : ErrOk (step c M w call).2.err := by
   cases call with
-  | write p => exact (step_write c (cfgOk' hc) M (matcherOk' hM) w d p h).1
-  | flush => exact (step_flush c (cfgOk' hc) M (matcherOk' hM) w d h).1
-  | close => exact (step_close c (cfgOk' hc) M (matcherOk' hM) w d h).1
+  | write p => exact (step_write c (cfgOk' hc) M I (matcherInv' hI) w d p h).1
+  | flush => exact (step_flush c (cfgOk' hc) M I (matcherInv' hI) w d h).1
+  | close => exact (step_close c (cfgOk' hc) M I (matcherInv' hI) w d h).1
 
-theorem init_run (c : Cfg) (hc : CfgOk c) (M : Matcher σ) (hM : MatcherOk c M) (m0 : σ)
+theorem init_run (c : Cfg) (hc : CfgOk c) (M : Matcher σ) (I : σ → ByteArray → ByteArray → Prop) (hI : MatcherInv c M I) (m0 : σ)
+    (h0 : I m0 ByteArray.empty ByteArray.empty)
     (calls : List Call) (hnc : ∀ call ∈ calls, ¬ (call matches .close))
     (hok : allOk (run c M (init c m0) calls).2) :
-    RunInv c (run c M (init c m0) calls).1 (payload calls) := by
-  have := run_spec c hc M hM calls _ _ (init_inv c m0) hnc hok
+    RunInv c I (run c M (init c m0) calls).1 (payload calls) := by
+  have := run_spec c hc M I hI calls _ _ (init_inv c I m0 h0) hnc hok
   rwa [ByteArray.empty_append] at this
 
 /-- nothing pending: the emitted content is everything accepted -/
@@ -270,6 +299,99 @@ theorem write_ok_n (c : Cfg) (M : Matcher σ) (p : ByteArray) : ∀ (fuel : Nat)
       show n = p.size
       omega
 
+/-! ## the theorems for match finders with a sync invariant (`MatcherInv`) -/
+
+theorem run_refines_I (strict : Bool) (c : Cfg) (hc : CfgOk c) (M : Matcher σ)
+    (I : σ → ByteArray → ByteArray → Prop) (hI : MatcherInv c M I) (m0 : σ) (h0 : I m0 ByteArray.empty ByteArray.empty)
+    (calls : List Call) (hnc : ∀ call ∈ calls, ¬ (call matches .close))
+    (hok : allOk (run c M (init c m0) calls).2) :
+    let w := (run c M (init c m0) calls).1
+    ChunksOk strict (e0 c.dictCap) .init w.chunks.toList ∧
+    w.out = chunksBytes (e0 c.dictCap) w.chunks.toList ∧
+    (w.chunks.foldl emitChunk (e0 c.dictCap)).h.out = w.hist.extract 0 w.start ∧
+    w.hist ++ w.look = payload calls := by
+  intro w
+  have h := init_run c hc M I hI m0 h0 calls hnc hok
+  refine ⟨chunksOk_of_inv h.inv.toInv strict, h.inv.out, ?_, h.data⟩
+  rw [← Array.foldl_toList]
+  have := h.inv.eh
+  unfold EE at this
+  rw [this]
+  rfl
+
+theorem flush_prefix_decodes_I (strict : Bool) (c : Cfg) (hc : CfgOk c) (M : Matcher σ)
+    (I : σ → ByteArray → ByteArray → Prop) (hI : MatcherInv c M I) (m0 : σ) (h0 : I m0 ByteArray.empty ByteArray.empty)
+    (calls : List Call) (hnc : ∀ call ∈ calls, ¬ (call matches .close))
+    (hok : allOk (run c M (init c m0) (calls ++ [.flush])).2) :
+    let w := (run c M (init c m0) (calls ++ [.flush])).1
+    ∃ r, decode strict c.dictCap (w.out.push 0) 0 ByteArray.empty = (r, .eof) ∧
+      r.h.out = payload calls ∧ r.pos = w.out.size + 1 := by
+  intro w
+  obtain ⟨hw, hall⟩ := run_snoc c M calls .flush (init c m0)
+  obtain ⟨hok1, herr⟩ := hall.mp hok
+  have h := init_run c hc M I hI m0 h0 calls hnc hok1
+  obtain ⟨h1, hz⟩ := (step_flush c (cfgOk' hc) M I (matcherInv' hI) _ _ h).2 herr
+  have hwe : w = (step c M (run c M (init c m0) calls).1 .flush).1 := hw
+  rw [← hwe] at h1 hz
+  obtain ⟨r, a1, _, a3, a4, _, _⟩ := decode_emit strict c.dictCap w.chunks (chunksOk_of_inv h1.inv.toInv strict)
+  rw [← out_push_eq h1.inv.toInv] at a1 a4
+  refine ⟨r, a1, ?_, ?_⟩
+  · rw [a3, quiescent h1.inv.toInv hz, h1.data]
+  · rw [a4, ByteArray.size_push]
+
+theorem close_decodes_I (strict : Bool) (c : Cfg) (hc : CfgOk c) (M : Matcher σ)
+    (I : σ → ByteArray → ByteArray → Prop) (hI : MatcherInv c M I) (m0 : σ) (h0 : I m0 ByteArray.empty ByteArray.empty)
+    (calls : List Call) (hnc : ∀ call ∈ calls, ¬ (call matches .close))
+    (hok : allOk (run c M (init c m0) (calls ++ [.close])).2) :
+    let w := (run c M (init c m0) (calls ++ [.close])).1
+    ∃ r, decode strict c.dictCap w.out 0 ByteArray.empty = (r, .eof) ∧
+      r.h.out = payload calls ∧ r.pos = w.out.size ∧ r.seq = .ended := by
+  intro w
+  obtain ⟨hw, hall⟩ := run_snoc c M calls .close (init c m0)
+  obtain ⟨hok1, herr⟩ := hall.mp hok
+  have h := init_run c hc M I hI m0 h0 calls hnc hok1
+  obtain ⟨w', hi', hz, hd, hst⟩ := (step_close c (cfgOk' hc) M I (matcherInv' hI) _ _ h).2 herr
+  have hwe : w = (step c M (run c M (init c m0) calls).1 .close).1 := hw
+  rw [← hwe] at hst
+  obtain ⟨r, a1, _, a3, a4, a5, _⟩ := decode_emit strict c.dictCap w'.chunks (chunksOk_of_inv hi'.toInv strict)
+  rw [← out_push_eq hi'.toInv] at a1 a4
+  have hout : w.out = w'.out.push 0 := by rw [hst]
+  rw [hout]
+  refine ⟨r, a1, ?_, a4, a5⟩
+  rw [a3, quiescent hi'.toInv hz, hd]
+
+theorem first_error_is_limit_I (c : Cfg) (hc : CfgOk c) (M : Matcher σ)
+    (I : σ → ByteArray → ByteArray → Prop) (hI : MatcherInv c M I) (m0 : σ) (h0 : I m0 ByteArray.empty ByteArray.empty)
+    (calls : List Call) (hnc : ∀ call ∈ calls, ¬ (call matches .close)) (call : Call)
+    (hok : allOk (run c M (init c m0) calls).2) :
+    let r := (step c M (run c M (init c m0) calls).1 call).2
+    r.err = none ∨ r.err = some .limit := by
+  intro r
+  have h := init_run c hc M I hI m0 h0 calls hnc hok
+  exact (step_errOk c hc M I hI _ _ h call).1
+
+theorem no_error_of_margin_I (hmargin : 25 ≤ Gen.lzma_opLenMargin)
+    (c : Cfg) (hc : CfgOk c) (M : Matcher σ)
+    (I : σ → ByteArray → ByteArray → Prop) (hI : MatcherInv c M I) (m0 : σ) (h0 : I m0 ByteArray.empty ByteArray.empty)
+    (calls : List Call) (hnc : ∀ call ∈ calls, ¬ (call matches .close)) (call : Call) :
+    allOk (run c M (init c m0) (calls ++ [call])).2 := by
+  obtain ⟨_, hall⟩ := run_snoc c M calls call (init c m0)
+  have hok1 := run_margin hmargin c hc M I hI calls _ _ (init_inv c I m0 h0) hnc
+  have h := init_run c hc M I hI m0 h0 calls hnc hok1
+  exact hall.mpr ⟨hok1, (step_errOk c hc M I hI _ _ h call).2 hmargin⟩
+
+theorem chunk_sizes_I (c : Cfg) (hc : CfgOk c) (M : Matcher σ)
+    (I : σ → ByteArray → ByteArray → Prop) (hI : MatcherInv c M I) (m0 : σ) (h0 : I m0 ByteArray.empty ByteArray.empty)
+    (calls : List Call) (hnc : ∀ call ∈ calls, ¬ (call matches .close))
+    (hok : allOk (run c M (init c m0) calls).2) :
+    ∀ ck ∈ (run c M (init c m0) calls).1.chunks.toList,
+      (ck.kind = .u ∨ ck.kind = .ud) ∧ 1 ≤ ck.raw.size ∧ ck.raw.size ≤ 65536 ∨
+      isLz ck.kind ∧ ck.ops ≠ #[] := by
+  have h := init_run c hc M I hI m0 h0 calls hnc hok
+  obtain ⟨q, hq, _⟩ := h.inv.cks
+  intro ck hck
+  exact COk.sizeOk true _ _ _ _ (hq true) ck hck
+
 /-! ## statements to prove (do not change them) -/
 
 /-- **Refinement.** After any history of successful calls (none of them `Close`), the sink holds exactly the
@@ -283,14 +405,7 @@ theorem run_refines (strict : Bool) (c : Cfg) (hc : CfgOk c) (M : Matcher σ) (h
     w.out = chunksBytes (e0 c.dictCap) w.chunks.toList ∧
     (w.chunks.foldl emitChunk (e0 c.dictCap)).h.out = w.hist.extract 0 w.start ∧
     w.hist ++ w.look = payload calls := by
-  intro w
-  have h := init_run c hc M hM m0 calls hnc hok
-  refine ⟨chunksOk_of_inv h.inv strict, h.inv.out, ?_, h.data⟩
-  rw [← Array.foldl_toList]
-  have := h.inv.eh
-  unfold EE at this
-  rw [this]
-  rfl
+  exact run_refines_I strict c hc M (fun _ _ _ => True) (matcherInv_of_ok hM) m0 trivial calls hnc hok
 
 /-- **Flush clause of C08.** After a successful history that ends with `Flush`, the sink plus an end marker
     decodes (format rules and Go rules) to exactly the accepted data and every byte is consumed. -/
@@ -300,18 +415,7 @@ theorem flush_prefix_decodes (strict : Bool) (c : Cfg) (hc : CfgOk c) (M : Match
     let w := (run c M (init c m0) (calls ++ [.flush])).1
     ∃ r, decode strict c.dictCap (w.out.push 0) 0 ByteArray.empty = (r, .eof) ∧
       r.h.out = payload calls ∧ r.pos = w.out.size + 1 := by
-  intro w
-  obtain ⟨hw, hall⟩ := run_snoc c M calls .flush (init c m0)
-  obtain ⟨hok1, herr⟩ := hall.mp hok
-  have h := init_run c hc M hM m0 calls hnc hok1
-  obtain ⟨h1, h0⟩ := (step_flush c (cfgOk' hc) M (matcherOk' hM) _ _ h).2 herr
-  have hwe : w = (step c M (run c M (init c m0) calls).1 .flush).1 := hw
-  rw [← hwe] at h1 h0
-  obtain ⟨r, a1, _, a3, a4, _, _⟩ := decode_emit strict c.dictCap w.chunks (chunksOk_of_inv h1.inv strict)
-  rw [← out_push_eq h1.inv] at a1 a4
-  refine ⟨r, a1, ?_, ?_⟩
-  · rw [a3, quiescent h1.inv h0, h1.data]
-  · rw [a4, ByteArray.size_push]
+  exact flush_prefix_decodes_I strict c hc M (fun _ _ _ => True) (matcherInv_of_ok hM) m0 trivial calls hnc hok
 
 /-- **Close clause of C08 / C01.** After a successful history that ends with `Close`, the sink decodes to exactly
     the accepted data followed by a clean end, consuming every byte. -/
@@ -321,19 +425,7 @@ theorem close_decodes (strict : Bool) (c : Cfg) (hc : CfgOk c) (M : Matcher σ) 
     let w := (run c M (init c m0) (calls ++ [.close])).1
     ∃ r, decode strict c.dictCap w.out 0 ByteArray.empty = (r, .eof) ∧
       r.h.out = payload calls ∧ r.pos = w.out.size ∧ r.seq = .ended := by
-  intro w
-  obtain ⟨hw, hall⟩ := run_snoc c M calls .close (init c m0)
-  obtain ⟨hok1, herr⟩ := hall.mp hok
-  have h := init_run c hc M hM m0 calls hnc hok1
-  obtain ⟨w', hi', h0, hd, hst⟩ := (step_close c (cfgOk' hc) M (matcherOk' hM) _ _ h).2 herr
-  have hwe : w = (step c M (run c M (init c m0) calls).1 .close).1 := hw
-  rw [← hwe] at hst
-  obtain ⟨r, a1, _, a3, a4, a5, _⟩ := decode_emit strict c.dictCap w'.chunks (chunksOk_of_inv hi' strict)
-  rw [← out_push_eq hi'] at a1 a4
-  have hout : w.out = w'.out.push 0 := by rw [hst]
-  rw [hout]
-  refine ⟨r, a1, ?_, a4, a5⟩
-  rw [a3, quiescent hi' h0, hd]
+  exact close_decodes_I strict c hc M (fun _ _ _ => True) (matcherInv_of_ok hM) m0 trivial calls hnc hok
 
 /-- a successful `Write` has taken every byte -/
 theorem write_ok_all (c : Cfg) (M : Matcher σ) (w : WSt σ) (p : ByteArray)
@@ -370,9 +462,7 @@ theorem first_error_is_limit (c : Cfg) (hc : CfgOk c) (M : Matcher σ) (hM : Mat
     (hok : allOk (run c M (init c m0) calls).2) :
     let r := (step c M (run c M (init c m0) calls).1 call).2
     r.err = none ∨ r.err = some .limit := by
-  intro r
-  have h := init_run c hc M hM m0 calls hnc hok
-  exact (step_errOk c hc M hM _ _ h call).1
+  exact first_error_is_limit_I c hc M (fun _ _ _ => True) (matcherInv_of_ok hM) m0 trivial calls hnc call hok
 
 /-- **Success under a sufficient margin.** One operation costs at most 20 bytes (`op_digits_bound`) and closing
     the range coder needs 5 more; if `opLenMargin ≥ 25` no call ever fails. -/
@@ -380,10 +470,7 @@ theorem no_error_of_margin (hmargin : 25 ≤ Gen.lzma_opLenMargin)
     (c : Cfg) (hc : CfgOk c) (M : Matcher σ) (hM : MatcherOk c M) (m0 : σ)
     (calls : List Call) (hnc : ∀ call ∈ calls, ¬ (call matches .close)) (call : Call) :
     allOk (run c M (init c m0) (calls ++ [call])).2 := by
-  obtain ⟨_, hall⟩ := run_snoc c M calls call (init c m0)
-  have hok1 := run_margin hmargin c hc M hM calls _ _ (init_inv c m0) hnc
-  have h := init_run c hc M hM m0 calls hnc hok1
-  exact hall.mpr ⟨hok1, (step_errOk c hc M hM _ _ h call).2 hmargin⟩
+  exact no_error_of_margin_I hmargin c hc M (fun _ _ _ => True) (matcherInv_of_ok hM) m0 trivial calls hnc call
 
 /-- **Chunk discipline of the writer (C16, C17 premises).** Every chunk the writer records is either raw with
     1…65536 bytes or compressed with 1…2^21 bytes of content in at most 65536 bytes; the compressed form is
@@ -395,11 +482,14 @@ theorem chunk_sizes (c : Cfg) (hc : CfgOk c) (M : Matcher σ) (hM : MatcherOk c 
     ∀ ck ∈ (run c M (init c m0) calls).1.chunks.toList,
       (ck.kind = .u ∨ ck.kind = .ud) ∧ 1 ≤ ck.raw.size ∧ ck.raw.size ≤ 65536 ∨
       isLz ck.kind ∧ ck.ops ≠ #[] := by
-  have h := init_run c hc M hM m0 calls hnc hok
-  obtain ⟨q, hq, _⟩ := h.inv.cks
-  intro ck hck
-  exact COk.sizeOk true _ _ _ _ (hq true) ck hck
+  exact chunk_sizes_I c hc M (fun _ _ _ => True) (matcherInv_of_ok hM) m0 trivial calls hnc hok
 
+#print axioms W2.run_refines_I
+#print axioms W2.flush_prefix_decodes_I
+#print axioms W2.close_decodes_I
+#print axioms W2.first_error_is_limit_I
+#print axioms W2.no_error_of_margin_I
+#print axioms W2.chunk_sizes_I
 #print axioms W2.run_refines
 #print axioms W2.flush_prefix_decodes
 #print axioms W2.close_decodes
